@@ -1799,6 +1799,9 @@ Example ex_commit :
   end.
 Proof. vm_compute. repeat split. Qed.
 
+Lemma ex_wfpath : wf_text (a_path ex_art).
+Proof. split; [vm_compute; reflexivity|repeat constructor]. Qed.
+
 (* the premises of the theorems above are satisfiable: instances on this example *)
 Example ex_merkle :
   codec_ok ->
@@ -1811,7 +1814,7 @@ Proof.
   - unfold ex_result in E.
     pose proof (commit_merkle_ctree Hu Hu_inj Hu_text Hcodec _ _ _ _ _ _ _
                   (empty_cache_ok Hu) empty_man_plain ex_ctree
-                  ltac:(split; [vm_compute; reflexivity|repeat constructor]) E) as Hm.
+                  ex_wfpath E) as Hm.
     rewrite (plain_logical [] ex_tree ex_plain) in Hm. exact Hm.
   - vm_compute in E. discriminate.
 Qed.
@@ -1860,3 +1863,188 @@ Proof.
   - vm_compute in E. discriminate.
 Qed.
 Print Assumptions cex_merkle_link.
+
+Lemma single_cget k o d o' : cget [(k, o)] d = Some o' -> d = k /\ o' = o.
+Proof.
+  unfold cget. cbn [alookup]. destruct (beqb d k) eqn:E; [|discriminate].
+  apply beqb_eq in E. intros Hx. injection Hx as <-. split; [exact E|reflexivity].
+Qed.
+
+(* stmt_commit_ok: the old manifest records a directory child whose checksum X is not in the
+   cache; a sibling file that hashes to X is stored first; the child's old manifest is then read
+   from that blob, which is not a manifest *)
+Definition cexO_m := enc_manifest (mkMan (str "d") [(str "sub", mkArt (Ht (str "hello")) (str "sub") true false false)]).
+Definition cexO_cache : cache := [(Ht cexO_m, mkObj cexO_m cache_perms)].
+Definition cexO_art := mkArt (Ht cexO_m) (str "d") true false false.
+Definition cexO_tree := Dir [(str "f", File (str "hello")); (str "sub", Dir [])].
+
+Lemma cexO_inv : cache_inv Ht cexO_cache.
+Proof.
+  split; [|split].
+  - intros d o Hg. apply single_cget in Hg as [-> ->]. split; reflexivity.
+  - intros d o m Hg Hd. apply single_cget in Hg as [-> ->]. vm_compute in Hd. injection Hd as <-.
+    repeat constructor.
+  - intros d o m Hg Hd. apply single_cget in Hg as [-> ->]. vm_compute in Hd. injection Hd as <-.
+    constructor; [|constructor]. intros _ o' Hg'. vm_compute in Hg'. discriminate.
+Qed.
+
+Theorem cex_ok : ~ stmt_commit_ok Ht.
+Proof.
+  intros Hst.
+  destruct (Hst cexO_art cexO_tree cexO_cache Copy) as (n' & c' & a' & Hok).
+  - constructor; [repeat constructor|].
+    constructor; [split; [good_name_tac|constructor]|].
+    constructor; [|constructor]. split; [good_name_tac|]. constructor; constructor.
+  - reflexivity.
+  - reflexivity.
+  - exact cexO_inv.
+  - intros _ o Hg. apply single_cget in Hg as [_ ->]. vm_compute. discriminate.
+  - vm_compute in Hok. discriminate.
+Qed.
+Print Assumptions cex_ok.
+
+(* stmt_commit_inv (1): a committed file whose bytes are a manifest with a flagged child breaks
+   man_plain.  (The statement has H_text and codec_ok as premises: toy hash Hu.) *)
+Definition cexI_blob := enc_manifest (mkMan (str "x") [(str "k", mkArt [] (str "k") true true false)]).
+Definition cexI_art := mkArt [] (str "f") false false false.
+
+Lemma cexI_wfpath : wf_text (a_path cexI_art).
+Proof. split; [vm_compute; reflexivity|repeat constructor]. Qed.
+
+Theorem cex_inv_plain : codec_ok -> ~ stmt_commit_inv Hu.
+Proof.
+  intros Hcodec Hst.
+  destruct (commit_node Hu cexI_art (File cexI_blob) [] Copy) as [[[n' c'] a']|] eqn:E.
+  - destruct (Hst Hu_inj Hu_has Hu_text Hcodec _ _ _ _ _ _ _ (plain_file cexI_blob)
+                  cexI_wfpath (empty_cache_inv Hu) E)
+      as [(_ & Hmp & _) _].
+    assert (Hc' : c' = cput [] (Hu cexI_blob) cexI_blob)
+      by (vm_compute in E; injection E as _ <- _; vm_compute; reflexivity).
+    subst c'. clear E.
+    specialize (Hmp (Hu cexI_blob) (mkObj cexI_blob cache_perms)).
+    rewrite cget_cput, beqb_refl in Hmp. cbn [o_data] in Hmp.
+    destruct (dec_manifest cexI_blob) as [m|] eqn:Ed; [|vm_compute in Ed; discriminate].
+    specialize (Hmp m eq_refl eq_refl). vm_compute in Ed. injection Ed as <-.
+    inversion Hmp as [|kv r [Hn _] _]; subst. discriminate Hn.
+  - vm_compute in E. discriminate.
+Qed.
+Print Assumptions cex_inv_plain.
+
+(* stmt_commit_inv (2), stmt_commit_merkle (2): even for plain trees of tame files, a dangling
+   directory reference can be populated by a blob: man_closed is lost; and with a blob that is a
+   flagged manifest the grandchildren are committed non-recursively, so that the checksum is not
+   the Merkle function *)
+Definition cexC_m := enc_manifest (mkMan (str "d") [(str "sub", mkArt (Hu (str "hello")) (str "sub") true false false)]).
+Definition cexC_cache : cache := [(Hu cexC_m, mkObj cexC_m cache_perms)].
+
+Example cex_inv_closed :
+  cache_inv Hu cexC_cache /\
+  match commit_node Hu (mkArt [] (str "f") false false false) (File (str "hello")) cexC_cache Copy with
+  | Ok (_, c', _) => ~ man_closed c'
+  | Err => False
+  end.
+Proof.
+  split.
+  - split; [|split].
+    + intros d o Hg. apply single_cget in Hg as [-> ->]. split; reflexivity.
+    + intros d o m Hg Hd. apply single_cget in Hg as [-> ->]. vm_compute in Hd. injection Hd as <-.
+      repeat constructor.
+    + intros d o m Hg Hd. apply single_cget in Hg as [-> ->]. vm_compute in Hd. injection Hd as <-.
+      constructor; [|constructor]. intros _ o' Hg'. vm_compute in Hg'. discriminate.
+  - cbn [commit_node a_isdir]. unfold commit_file, qmatch. rewrite andb_false_r. cbn [a_skip].
+    intros Hcl. specialize (Hcl (Hu cexC_m) (mkObj cexC_m cache_perms)).
+    destruct (dec_manifest cexC_m) as [m|] eqn:Ed; [|vm_compute in Ed; discriminate].
+    specialize (Hcl m). cbn [o_data] in Hcl.
+    assert (Hg : cget (cput cexC_cache (Hu (str "hello")) (str "hello")) (Hu cexC_m) =
+                 Some (mkObj cexC_m cache_perms)) by (vm_compute; reflexivity).
+    specialize (Hcl Hg Ed). vm_compute in Ed. injection Ed as <-.
+    inversion Hcl as [|kv r Hk _]; subst. cbn [snd a_isdir a_cs] in Hk.
+    apply (Hk eq_refl (mkObj (str "hello") cache_perms)).
+    + rewrite cget_cput, beqb_refl. reflexivity.
+    + vm_compute. reflexivity.
+Qed.
+
+Definition cexB_blob := enc_manifest (mkMan (str "sub") [(str "k", mkArt [] (str "k") true true false)]).
+Definition cexB_m := enc_manifest (mkMan (str "d") [(str "sub", mkArt (Ht cexB_blob) (str "sub") true false false)]).
+Definition cexB_cache : cache := [(Ht cexB_m, mkObj cexB_m cache_perms)].
+Definition cexB_art := mkArt (Ht cexB_m) (str "d") true false false.
+Definition cexB_tree :=
+  Dir [(str "f", File cexB_blob);
+       (str "sub", Dir [(str "k", Dir [(str "deep", Dir [(str "z", File (str "hello"))])])])].
+
+Example cex_merkle_blob :
+  cache_ok Ht cexB_cache /\ man_plain cexB_cache /\ plain cexB_tree /\
+  match commit_node Ht cexB_art cexB_tree cexB_cache Copy with
+  | Ok (_, _, a') =>
+    exists d, merkle Ht (a_path cexB_art) (a_norec cexB_art) (logical cexB_cache cexB_tree) = Some d /\
+              d <> a_cs a'
+  | Err => False
+  end.
+Proof.
+  split; [|split; [|split]].
+  - intros d o Hg. apply single_cget in Hg as [-> ->]. split; reflexivity.
+  - intros d o m Hg Hd. apply single_cget in Hg as [-> ->]. vm_compute in Hd. injection Hd as <-.
+    repeat constructor.
+  - constructor; [repeat constructor|].
+    constructor; [split; [good_name_tac|constructor]|].
+    constructor; [|constructor]. split; [good_name_tac|].
+    constructor; [repeat constructor|]. constructor; [|constructor]. split; [good_name_tac|].
+    constructor; [repeat constructor|]. constructor; [|constructor]. split; [good_name_tac|].
+    constructor; [repeat constructor|]. constructor; [|constructor]. split; [good_name_tac|constructor].
+  - vm_compute. eexists. split; [reflexivity|]. intros E. discriminate E.
+Qed.
+
+(* ------------------------------------------------------------------------------------------ *)
+(* codec_ok holds (Proofs/ManifestRT.v), so the premise can be dropped                         *)
+(* ------------------------------------------------------------------------------------------ *)
+Require DudV.Proofs.ManifestRT.
+
+Lemma okb_of_wf_text s : wf_text s -> ManifestRT.okb s = true.
+Proof.
+  intros [Hv Hb]. unfold ManifestRT.okb. rewrite Hv. cbn [andb]. unfold wf_bytes.
+  apply forallb_forall. intros x Hin. unfold bytes_ok in Hb. rewrite Forall_forall in Hb.
+  unfold is_byte. apply N.ltb_lt. exact (Hb x Hin).
+Qed.
+
+Lemma ssorted_of_sorted (l : list (bytes * artifact)) :
+  StronglySorted man_key_lt l -> ManifestRT.ssorted l = true.
+Proof.
+  induction 1 as [|kv r _ IH Hall]; [reflexivity|]. cbn [ManifestRT.ssorted]. rewrite IH, andb_true_r.
+  unfold ManifestRT.keys_gt. apply forallb_forall. intros x Hin. rewrite Forall_forall in Hall.
+  exact (Hall x Hin).
+Qed.
+
+Theorem codec_ok_holds : codec_ok.
+Proof.
+  intros m (Hp & Hs & He). apply ManifestRT.dec_enc_manifest. unfold ManifestRT.wf_manifest.
+  rewrite (okb_of_wf_text _ Hp), (ssorted_of_sorted _ Hs). cbn [andb].
+  unfold ManifestRT.wf_entries. apply forallb_forall. intros kv Hin. rewrite Forall_forall in He.
+  destruct (He kv Hin) as (E1 & E2 & E3 & E4 & _). unfold ManifestRT.wf_entry.
+  rewrite E1, beqb_refl, E2, (okb_of_wf_text _ E3), (okb_of_wf_text _ E4). reflexivity.
+Qed.
+Print Assumptions codec_ok_holds.
+
+Theorem cex_inv : ~ stmt_commit_inv Hu.
+Proof. exact (cex_inv_plain codec_ok_holds). Qed.
+Print Assumptions cex_inv.
+
+(* the repaired theorems without the codec premise *)
+Section NoCodec.
+  Variable H : bytes -> bytes.
+  Hypothesis Hinj : H_inj H.
+  Hypothesis Hhas : H_has H.
+  Hypothesis Htext : H_text H.
+
+  Definition commit_merkle_final := commit_merkle_ctree H Hinj Htext codec_ok_holds.
+  Definition commit_inv_final := commit_inv_ctree H Hinj Hhas Htext codec_ok_holds.
+  Definition commit_ok_final := commit_ok_ctree H Hinj Hhas Htext codec_ok_holds.
+  Definition commit_idem_final := commit_idem_ctree H Hinj Hhas Htext codec_ok_holds.
+End NoCodec.
+Check commit_merkle_final.
+Check commit_inv_final.
+Check commit_ok_final.
+Check commit_idem_final.
+Print Assumptions commit_merkle_final.
+Print Assumptions commit_inv_final.
+Print Assumptions commit_ok_final.
+Print Assumptions commit_idem_final.
